@@ -115,11 +115,16 @@ class Interp:
         self.parse_errors = collections.Counter()
         self.solver_s = 0.0
         self.run_ctx = None
-        for mf in mirfiles:
+        self.allocs_by_file = []
+        for fi, mf in enumerate(mirfiles):
             f, c, a, e = parse_file(mf)
             self.parse_errors.update(e)
-            for k, v in f.items(): self.funcs.setdefault(k, []).extend(v)
-            self.consts.update(c); self.allocs.update(a)
+            for k, v in f.items():
+                for fn_ in v: fn_.file_idx = fi
+                self.funcs.setdefault(k, []).extend(v)
+            for v in c.values():
+                if isinstance(v, Func): v.file_idx = fi
+            self.consts.update(c); self.allocs.update(a); self.allocs_by_file.append(a)   # alloc numbers are per dump: look them up through the using function's file
         self.enums = dict(STD_ENUMS); self.enums.update(enums or {})
         self.structs = structs or {}
         self.models = []         # (regex, handler)
@@ -285,7 +290,8 @@ class Interp:
             return self.eval_const_fn(st, cf, frame)
         m = re.match(r'^\{(alloc\d+): (.*)\}$', t)
         if m:
-            a = self.allocs.get(m.group(1))
+            fi = getattr(frame.func, 'file_idx', None) if frame is not None and getattr(frame, 'func', None) is not None else None
+            a = (self.allocs_by_file[fi] if fi is not None else self.allocs).get(m.group(1))
             return Obj('alloc', name=m.group(1), static=(a or {}).get('static'), ty=m.group(2), data=(a or {}).get('data'))
         m = re.match(r'^<([\w:]+) as ([\w:]+)>::(\w+)$', t)
         if m:
